@@ -1086,6 +1086,19 @@ Definition chk_trace (L : list (str * list node)) (reads : str -> list str)
   | None => false
   end.
 
+(** A render that the engine aborted with a LiquidError the model knows
+    (DisabledTagError, RequiredBlockError, TemplateInheritanceError ...). *)
+Definition chk_trace_err (L : list (str * list node)) (reads : str -> list str)
+  (oracle : list N) (exp : list event) (cls : lclass) : bool :=
+  match assoc main_s L with
+  | Some nodes =>
+      let r := run (loader_of L) reads run_fuel main_s nodes oracle in
+      match snd r with Halt (HErr c) => lclass_eqb c cls | _ => false end
+      && list_eqb event_eqb (fst (fst r)) exp
+      && match orc (snd (fst r)) with [] => true | _ => false end
+  | None => false
+  end.
+
 Definition model_trace (L : list (str * list node)) (reads : str -> list str) (oracle : list N) :=
   match assoc main_s L with
   | Some nodes => let r := run (loader_of L) reads run_fuel main_s nodes oracle in
